@@ -46,7 +46,7 @@ func resolveStruct(rv reflect.Value, fieldName string) (any, bool) {
 	rt := rv.Type()
 
 	// Try field name first
-	if f, ok := rt.FieldByName(fieldName); ok {
+	if f, ok := rt.FieldByName(fieldName); ok && f.IsExported() {
 		fv := rv.FieldByIndex(f.Index)
 		return fv.Interface(), true
 	}
@@ -56,6 +56,9 @@ func resolveStruct(rv reflect.Value, fieldName string) (any, bool) {
 		f := rt.Field(i)
 		tag := f.Tag.Get("json")
 		if tag == "" {
+			continue
+		}
+		if !f.IsExported() {
 			continue
 		}
 
@@ -72,7 +75,10 @@ func resolveStruct(rv reflect.Value, fieldName string) (any, bool) {
 
 // resolveMap handles map access by string key.
 func resolveMap(rv reflect.Value, key string) (any, bool) {
-	mapKey := reflect.ValueOf(key)
+	if rv.Type().Key().Kind() != reflect.String {
+		return nil, false
+	}
+	mapKey := reflect.ValueOf(key).Convert(rv.Type().Key())
 	v := rv.MapIndex(mapKey)
 	if !v.IsValid() {
 		return nil, false
